@@ -12,7 +12,7 @@ m = dict(
     engines=[dict(name="vt", path="vt/", serves_properties=[c['property_id'] for c in CHECKS],
                   kind_free_text="VC generation from the real code (jaxpr interpretation / proxy re-execution of parsed source) + z3/cvc5/Groebner discharge")],
     checks=[], not_applicable=NOT_APPLICABLE,
-    notes="exit codes: 0 held / 1 VIOLATION / 2 undecided (engine limit) / 3 checker error. See DESIGN.md.")
+    notes="exit codes: 0 held / 1 VIOLATION / 2 undecided (engine limit) / 3 checker error. Known findings: known_findings.json (open entries print KNOWN-FINDING and exit 0; fixed entries suppress nothing). Clause ledger: obligations.lock.json. Seeded property-breaking changes and which clause catches each: seeded/ and DESIGN.md section 10.6. DESIGN.md section 10 (As built) is authoritative.")
 claimed = {c['property_id'] for c in CHECKS}
 listed = {n['property_id'] for n in NOT_APPLICABLE}
 root = os.path.dirname(os.path.dirname(os.path.abspath(__file__)))
